@@ -324,6 +324,78 @@ type cbSpec struct {
 	Code        string   `json:"code"`
 	Must        bool     `json:"must_succeed"`
 	OwnState    string   `json:"-"`
+	// Sets (part B): the parameter sets of the request as literally sent — the URL query and, for a POST, the
+	// urlencoded body. Shape names the arrangement of a two-set callback ("" otherwise).
+	Sets  []paramSet `json:"parameter_sets,omitempty"`
+	Shape string     `json:"two_set_shape,omitempty"`
+}
+
+// paramSet is one place of a callback request that carries response parameters.
+type paramSet struct {
+	Where  string   `json:"where"` // url | body
+	States []string `json:"state,omitempty"`
+	Codes  []string `json:"code,omitempty"`
+	Other  []string `json:"other_parameters,omitempty"`
+}
+
+// view is one consistent reading of the parameters of a callback: which state value(s) and which code(s) it has.
+type view struct {
+	Name   string
+	States []string
+	Codes  []string
+}
+
+// views lists the consistent readings of a callback request that the oracle accepts (see run.Assume in main.go):
+// "url" — the parameters of the request URL alone (the only reading of a GET);
+// "form" — for a POST with a urlencoded body: each parameter from the body, from the URL only when the body does
+// not carry that parameter (the form semantics of HTTP frameworks; with a body that carries everything this is the
+// form_post response mode). A parameter that is absent reads as the empty string.
+func (s *cbSpec) views() []view {
+	var u, b *paramSet
+	for i := range s.Sets {
+		switch s.Sets[i].Where {
+		case "url":
+			u = &s.Sets[i]
+		case "body":
+			b = &s.Sets[i]
+		}
+	}
+	or := func(a []string) []string {
+		if len(a) == 0 {
+			return []string{""}
+		}
+		return a
+	}
+	var out []view
+	if u != nil {
+		out = append(out, view{"url", or(u.States), u.Codes})
+	}
+	if b != nil {
+		v := view{Name: "form", States: b.States, Codes: b.Codes}
+		if u != nil {
+			if len(v.States) == 0 {
+				v.States = u.States
+			}
+			if len(v.Codes) == 0 {
+				v.Codes = u.Codes
+			}
+		}
+		v.States = or(v.States)
+		out = append(out, v)
+	}
+	return out
+}
+
+// carried: does any parameter set of the request carry this code value.
+func (s *cbSpec) carried(code string) bool {
+	for _, ps := range s.Sets {
+		for _, c := range ps.Codes {
+			if c == code {
+				return true
+			}
+		}
+	}
+	return false
 }
 
 type cbOut struct {
